@@ -171,7 +171,7 @@ def extra_checks(rng, tier, g_, info):
     # dangling symlink — with every sub-command (the freshly drawn wallet of `new` included)
     m = 0
     subs = [sub_valid(rng) for _ in range(2 if tier == "quick" else 10)] + [["new"], ["new", "--mnemonic-len", "12"]]
-    for fsk in ("parentfile", "trailslash", "longname", "symloop", "dangling"):
+    for fsk in ("parentfile", "trailslash", "longname", "symloop", "dangling", "filetrail", "filetraildot"):
         for sv in subs:
             argv = ["--file", "@F"] + (["--paranoia"] if rng.random() < 0.5 else []) + ["--interval", "0", "1"] + sv
             line = "cli %s %s %s" % (fsk, hx(bytes(rng.getrandbits(8) for _ in range(40))), enc(argv))
